@@ -21,6 +21,9 @@ ASSUMPTIONS = [
 ]
 BUDGET = {'quick': 6000, 'thorough': 160000}
 EXHAUSTIVE_DOMAINS = {
+    'equal_overwrites': 'an item / a key overwritten by a value that compares equal but is another value (1, True, 1.0, 0, False, 0.0, '
+                        'containers of them): 13 x 13 old/new pairs x item assignment, rebind (1 and 2 paths), slice assignment, '
+                        'dict assignment / update / rebind / |=',
     'slices': 'all (start, stop) in {None,-7..7}^2 x step in {None,-3..3} slice read / assign(0..3 items) / delete on lists of length 0..5',
 }
 
@@ -87,7 +90,17 @@ def exhaustive(tier):
           yield {'kind': 'list', 'init': init,
                  'ops': [{'op': 'setslice', 'i': a, 'j': b, 's': s, 'ix': True,
                           'v': [10 + x for x in range(r)]}]}
-  return {'slices': gen()}
+  def equal_overwrites():
+    # an item overwritten by a value that is == to it but not the same value (1 / True / 1.0, containers of them)
+    vals = [1, True, 1.0, 0, False, 0.0, [1], [True], [1.0], {'$d': [['k', 1]]}, {'$d': [['k', True]]}, [], {'$d': []}]
+    for old, new in itertools.product(vals, repeat=2):
+      for name, extra in (('set', {'i': 0}), ('set', {'i': -1}), ('rebind', {'i': 0, 'm': 0}), ('rebind2', {'i': 0, 'j': 1, 'm': 0}),
+                          ('setslice', {'i': 0, 'j': 1, 's': None, 'ix': True})):
+        op = dict({'op': name, 'v': [new] if name == 'setslice' else new, 'w': new}, **extra)
+        yield {'kind': 'list', 'init': [old, old], 'ops': [op]}
+      for name, extra in (('dset', {'k': 0}), ('update', {'k': 0, 'm': 0}), ('drebind', {'k': 0, 'm': 0}), ('ior', {'k': 0, 'm': 0})):
+        yield {'kind': 'dict', 'init': {'$d': [['k', old], ['m', old]]}, 'ops': [dict({'op': name, 'v': new, 'w': new}, **extra)]}
+  return {'slices': gen(), 'equal_overwrites': equal_overwrites()}
 
 
 def _iterable(v, m, sym):
